@@ -97,6 +97,15 @@ def run(case):
             live = [a for a in live if a not in dead]
     if pos != len(TR):
         return "extra trace records after the last step: %r" % (TR[pos:pos + 3],)
+    # every time for which statistics were due has an entry in the collector (also when no agent was there to be counted)
+    due = [r + s * dt for r in range(case["start"], case["stop"] + 1) for s in range(n)
+           if case["collect"] or (r == case["stop"] and s == n - 1)]
+    try:
+        have = sorted(m.statistics().keys())
+    except Exception as e:
+        return "statistics() raised %s: %s" % (type(e).__name__, e)
+    if have != sorted(due):
+        return "statistics hold entries for the times %r, they were due for %r (%d agents)" % (have[:8], sorted(due)[:8], case["agents"])
     if case.get("again") and not m.kills:
         # the same model is run once more without data collection: its statistics are those of THAT run (the final step only)
         try:
@@ -109,7 +118,39 @@ def run(case):
             return "after a second run without data collection the statistics hold the times %r, that run recorded only %r" % (keys[:6], [last])
     return None
 
-case = {'start': 3, 'stop': 3, 'n': 10, 'agents': 2, 'collect': True, 'mode': 'steps', 'kills': [], 'types': ['a', 'b', 'b', 'a'], 'again': True}
+def run_model_steps(case):
+    """steps driven from outside through Model.run_step(k): step k is the time k*dt; every step inside the run is executed
+    (begin_round, every agent, end_round, statistics).  case = (steps per round, stop time, agents)"""
+    del TR[:]
+    n, stop, agents = case
+    dt = 1.0 / n
+    m = TM(scheduler=SimultaneousScheduler(), data_collector=DC())
+    m.kills = []
+    m.run_specs(0, stop, dt)
+    m.register_agent_factory("a", lambda i, mod, p: TA(i, mod, p))
+    for i in range(agents):
+        m.create_agent("a", None)
+    total = stop * n
+    try:
+        for k in range(total + 1):
+            m.run_step(k, False, True)
+    except Exception as e:
+        return "Model.run_step raised %s: %s" % (type(e).__name__, e)
+    exp = []
+    for k in range(total + 1):
+        t = 0 + k * dt
+        exp.append(("begin", t, 0, k))
+        for a in range(agents):
+            exp.append(("handle", a, t)); exp.append(("act", a, t))
+        exp.append(("end", t, 0, k)); exp.append(("collect", t))
+    if TR != exp:
+        for i, (x, y) in enumerate(zip(TR, exp)):
+            if x != y:
+                return "Model.run_step over %d steps (dt %r, stop %r): trace record %d is %r, expected %r" % (total + 1, dt, stop, i, x, y)
+        return "Model.run_step over %d steps (dt %r, stop %r): %d trace records, expected %d (first missing: %r)" % (total + 1, dt, stop, len(TR), len(exp), exp[len(TR):len(TR) + 1])
+    return None
+
+case = {'start': 3, 'stop': 3, 'n': 2, 'agents': 0, 'collect': False, 'mode': 'steps', 'kills': [], 'types': None, 'again': True}
 bad = run(case)
 print("case:", case)
 print("FAIL: " + bad if bad else "PASS")
